@@ -73,6 +73,14 @@ func (p Params) Validate() error {
 	if err := validateUint64("max report data size", true)(p.MaxReportDataSize); err != nil {
 		return err
 	}
+	// The owasm VM pre-allocates a buffer of max(calldata size, report data size) bytes for every
+	// script run, so these sizes must stay within what a node can allocate.
+	if p.MaxCalldataSize > MaxDataSize {
+		return fmt.Errorf("max calldata size must not exceed %d: %d", MaxDataSize, p.MaxCalldataSize)
+	}
+	if p.MaxReportDataSize > MaxDataSize {
+		return fmt.Errorf("max report data size must not exceed %d: %d", MaxDataSize, p.MaxReportDataSize)
+	}
 	if err := validateUint64("expiration block count", true)(p.ExpirationBlockCount); err != nil {
 		return err
 	}
